@@ -230,6 +230,48 @@ def run_coq_cases(prop, preamble, cases, chunk=400, tag="cases"):
     return bad
 
 
+def _run_stat_file(args):
+    idx, path = args
+    rc, out = coqc_file(path, timeout=3000, cwd=os.path.dirname(path))
+    return idx, rc, out
+
+
+def run_coq_stats(prop, preamble, cases, chunk=100, tag="stats"):
+    """Evaluate `stat_case : T -> N` (defined by `preamble`) on every case inside Coq.
+
+    Returns {case_id: N}.  Use small numbers as verdict codes (e.g. 0 ok, 1 skipped, 2 bad)."""
+    wd = os.path.join(WORK, prop, tag)
+    shutil.rmtree(wd, ignore_errors=True)
+    os.makedirs(wd)
+    files = []
+    for k in range(0, len(cases), chunk):
+        part = cases[k:k + chunk]
+        path = os.path.join(wd, "cases_%s_%04d.v" % (prop, k // chunk))
+        with open(path, "w") as f:
+            f.write(preamble + "\n")
+            f.write("Set Printing Width 100000.\nSet Printing Depth 1000000.\n")
+            f.write("Definition the_cases := [\n")
+            f.write(";\n".join("(%d%%N, %s)" % (cid, term) for cid, term in part))
+            f.write("].\n")
+            f.write("Eval vm_compute in List.map (fun c => (fst c, stat_case (snd c))) the_cases.\n")
+        files.append((k // chunk, path))
+    stats = {}
+    with ThreadPoolExecutor(max_workers=NPROC) as ex:
+        for idx, rc, out in ex.map(_run_stat_file, files):
+            if rc != 0:
+                raise CheckBroken("stats file %d for %s failed in coqc:\n%s" % (idx, prop, out[-3000:]))
+            m = re.search(r"=\s*(\[.*\])\s*:\s*list", out, flags=re.S)
+            if not m:
+                raise CheckBroken("cannot parse coqc output for %s shard %d:\n%s" % (prop, idx, out[-2000:]))
+            for mm in re.finditer(r"\((\d+)(?:%N)?,\s*(\d+)(?:%N)?\)", m.group(1)):
+                stats[int(mm.group(1))] = int(mm.group(2))
+    missing = [cid for cid, _ in cases if cid not in stats]
+    if missing:
+        raise CheckBroken("no verdict for %d cases of %s (first: %s)" % (len(missing), prop, missing[:3]))
+    shutil.rmtree(wd, ignore_errors=True)
+    return stats
+
+
 def coq_string(s):
     """Coq string literal for an ASCII python str."""
     return '"' + s.replace('"', '""') + '"'
